@@ -26,7 +26,7 @@ type translator struct {
 func main() {
 	repo := flag.String("repo", "/repo", "root of the gmqtt source tree")
 	out := flag.String("out", "", "output directory (theories/Gen)")
-	only := flag.String("only", "", "run a single translator (hooks|locks|consts|stoporder|proptable)")
+	only := flag.String("only", "", "run a single translator (hooks|locks|consts|stoporder|proptable|validate)")
 	flag.Parse()
 	if *out == "" {
 		fmt.Fprintln(os.Stderr, "verifgen: -out is required")
@@ -43,6 +43,7 @@ func main() {
 		{"locks", "LockOrder.v", genLocks},
 		{"stoporder", "StopOrder.v", genStopOrder},
 		{"proptable", "PropTable.v", genPropTable},
+		{"validate", "ValidateTable.v", genValidate},
 	}
 	sort.Slice(ts, func(i, j int) bool { return ts[i].name < ts[j].name })
 	// run all first, write only if all succeeded: never a partial Gen/ directory
